@@ -254,10 +254,11 @@ def St.abandoned : St → Bool
 def errorKinds : List MsgKind :=
   [.parseUtf8, .parseJson, .unsolicited, .badParams, .missingJsonrpc, .allInvalidBatch]
 
-/-- the session survives every error kind with logging at its defaults -/
+/-- the loop handles the `ProtocolError` of every error kind: judged on the plain rows (ASCII
+only, logging at its defaults), where no bookkeeping has anything unusual to chew on -/
 def loopCatches (lt : List LoopRow) : Bool :=
-  lt.all (fun r => r.verbose || !(errorKinds.contains r.kind) || r.ended == .served)
-  && errorKinds.all fun k => lt.any (fun r => r.kind == k && !r.verbose)
+  lt.all (fun r => r.verbose || r.width != 1 || !(errorKinds.contains r.kind) || r.ended == .served)
+  && errorKinds.all fun k => lt.any (fun r => r.kind == k && !r.verbose && r.width == 1)
 
 /-- **the guards of the model, read off the decision table**: an exception class counts as
 turned into a `ProtocolError` at a site exactly when every public probe that drives that
